@@ -18,10 +18,10 @@ import (
 type Verdict int
 
 const (
-	Proved Verdict = iota
-	Refuted         // solver returned sat: a model is attached
-	Undecided       // unknown / timeout
-	Vacuous         // cover obligation unsat
+	Proved    Verdict = iota
+	Refuted           // solver returned sat: a model is attached
+	Undecided         // unknown / timeout
+	Vacuous           // cover obligation unsat
 )
 
 func (v Verdict) String() string {
@@ -395,4 +395,38 @@ func SplitCases(spec interface{ GetAttr(string) string }) int {
 		return 1
 	}
 	return len(strings.Fields(sp)) - 1
+}
+
+// implied asks the solvers (synchronously, short timeout) whether the assumptions and the path
+// condition of st entail goal. Used to fold loop-exit tests while unwinding.
+func (x *Exec) implied(st *State, goal *T) bool {
+	if goal == term.True {
+		return true
+	}
+	if st.PC == term.False {
+		return true
+	}
+	as := append([]*T(nil), x.Assumptions...)
+	as = append(as, x.P.axiomTerms(x)...)
+	rel := relevant(as, st.PC, goal)
+	rel = append(rel, st.PC)
+	script := term.Script(rel, goal, nil, false)
+	f, err := os.CreateTemp("", "govc-fold*.smt2")
+	if err != nil {
+		return false
+	}
+	f.WriteString(script)
+	f.Close()
+	defer os.Remove(f.Name())
+	x.FoldQueries++
+	for _, sd := range solvers[:2] {
+		st, _, _ := runSolver(context.Background(), sd, 5*time.Second, f.Name())
+		if st == "unsat" {
+			return true
+		}
+		if st == "sat" {
+			return false
+		}
+	}
+	return false
 }
